@@ -1588,12 +1588,10 @@ skip_cpp_comment(int c) {
   if (_save_comments) {
     CPPCommentBlock *comment;
 
+    // The line number is that of the last character fetched; a newline
+    // counts as part of the line it ends, so this is the comment's own line
+    // even if the comment is empty.
     int line_number = get_line_number();
-    if (c == '\n') {
-      // We have to subtract one from the line number as we just fetched a
-      // newline.
-      --line_number;
-    }
 
     if (_last_cpp_comment && !_comments.empty() &&
         _comments.back()->_last_line >= line_number - 1 &&
